@@ -68,8 +68,12 @@ func propSpecs() map[string]*PropSpec {
 			c01.Jobs = append(c01.Jobs, JobSpec{Pkg: pkgCM, Harness: "H_C01_F", Params: []int64{n, e}, Bound: fmt.Sprintf("F(%d) via %s", n, name), Tier: "quick", Cert: 16})
 		}
 		c01.Jobs = append(c01.Jobs, JobSpec{Pkg: pkgCM, Harness: "H_C01_F", Params: []int64{4, e}, Bound: fmt.Sprintf("F(4) via %s", name), Tier: "thorough", Cert: 16})
-		for i := int64(0); i < 7; i++ {
-			c01.Jobs = append(c01.Jobs, JobSpec{Pkg: pkgCM, Harness: "H_C01_T", Params: []int64{i, e}, Bound: fmt.Sprintf("C01 template %d via %s", i, name), Tier: "quick"})
+		for i := int64(0); i < 10; i++ {
+			t := "quick"
+			if i >= 7 {
+				t = "thorough"
+			}
+			c01.Jobs = append(c01.Jobs, JobSpec{Pkg: pkgCM, Harness: "H_C01_T", Params: []int64{i, e}, Bound: fmt.Sprintf("C01 template %d via %s", i, name), Tier: t})
 		}
 	}
 	add(c01)
